@@ -95,7 +95,8 @@ func (e *c14Eval) sat(p types.SpendPolicy) bool {
 		if !c14SaneTime(tt) || !c14SaneTime(e.s.Median) {
 			e.unspecified = true
 		}
-		return tt < e.s.Median
+		// strictly after, as instants: seconds first, then the nanoseconds of the median
+		return tt < e.s.Median || (tt == e.s.Median && e.s.MedianNs > 0)
 	case types.PolicyTypePublicKey:
 		if len(e.sigs) == 0 {
 			return false
